@@ -120,6 +120,17 @@ def build():
     if bool(cut) == bool(walk):
         raise GenError("lookup_entry_for_name: proper-suffix branch not recognised")
     defs.append(("cmp_aligns_suffix", "bool", b(bool(walk))))
+    # what is compared, and with which folding: the whole wire octets of name and
+    # entry (length octets included), from the end, after u8::to_ascii_lowercase
+    one(r"let\s+suffix_len\s*=\s*core::iter::zip\(\s*name\.iter\(\)\.rev\(\)\.map\(u8::to_ascii_lowercase\)\s*,\s*entry\.iter\(\)\.rev\(\)\.map\(u8::to_ascii_lowercase\)\s*,?\s*\)\s*\.position\(\|\(a,\s*b\)\|\s*a\s*!=\s*b\)\s*;", lk, "lookup_entry_for_name suffix comparison (fold = u8::to_ascii_lowercase over all wire octets)")
+    defs.append(("cmp_fold_is_ascii_lowercase", "bool", "true"))
+    one(r"let\s+entry\s*=\s*contents\s*\.get\(\s*pos\s*\.\.\s*pos\s*\+\s*len\s*\)", lk, "lookup_entry_for_name entry slice")
+    lr = fn_body(cp, "lookup_entry_for_revname", after="impl NameCompressor")
+    ms = re.findall(r"\|\|\s*!\s*entry\[\s*entry\.len\(\)\s*-\s*(first|label)\.as_wire\(\)\.len\(\)\s*\.\.\s*\]\s*\.eq_ignore_ascii_case\(\s*(first|label)\.as_wire\(\)\s*\)", lr)
+    if sorted(ms) != [("first", "first"), ("label", "label")]:
+        raise GenError("lookup_entry_for_revname: label comparisons are not the two eq_ignore_ascii_case(as_wire) tests: %r" % (ms,))
+    defs.append(("rev_fold_is_eq_ignore_ascii_case", "bool", "true"))
+    # Bytes.lower in the model is u8::to_ascii_lowercase; hash_label folds with | 0x20 (only a filter)
     hl = fn_body(cp, "hash_label", after="impl NameCompressor")
     for nm in ("SEED1", "SEED2", "M"):
         m = one(r"const\s+%s\s*:\s*u64\s*=\s*" % nm + NUM + r"\s*;", hl, "hash_label " + nm)
